@@ -13,7 +13,7 @@ P1 non-finite values: decstring accepts only tokens ending in a digit or '.', ev
    final characters; the dense vector reader rejects what decstring rejects.
 """
 import re
-from ..cfg import Facts, kids, strip, walk, cv, render, call_args, call_object
+from ..cfg import xrender, norm_facts, expand_locals, _stable_local_inits, Facts, kids, strip, walk, cv, render, call_args, call_object
 from ..cfg import short_loc as _short_loc
 from ..facts import export_many, AnalysisBroken
 
@@ -98,7 +98,7 @@ def run(rep, ctx):
                               r"mp::internal::SuffixValueCounter::.*", r"mp::BasicSuffix::VisitValues", r"mp::Suffix::VisitValues"],
                  var=[r"mp::internal::SUFFIX_KIND_MASK"], enum=[r"mp::suf::.*", r"mp::internal::.*"], repo=repo),
             dict(unit="src/sol.cc", fn=[r"mp::internal::WriteMessage"], repo=repo),
-            dict(unit=RU, fn=[r"mp::SOLReader2::(ReadSOLFile|gsufread|sufheadcheck)", r"mp::(Lget|decstring|Read)", r"mp::VecReader::ReadNext"],
+            dict(unit=RU, fn=[r"mp::SOLReader2::(ReadSOLFile|gsufread|sufheadcheck)", r"mp::(Lget|decstring|Read)", r"mp::[a-z_0-9]+", r"mp::VecReader::ReadNext"],
                  repo=repo)]
     F = Facts(export_many(jobs))
     rep.note_units([WU, "src/sol.cc", RU])
@@ -384,12 +384,17 @@ def run(rep, ctx):
         and render(fl_[0]["c"][0]).endswith("line_start = message")
     s1.check(okshape, "line-scan", short_loc(WM.loc), "each iteration scans one line [line_start, line_end) up to '\\n' or the end",
              "scan loop: %s" % render(st[1])[:80] if len(st) > 1 else "?")
-    ATOMS = {"line_end==line_start": "empty", "line_start==line_end": "empty", "*line_end": "more", "!*line_end": "nomore"}
+    ATOMS = {"line_end==line_start": "empty", "line_start==line_end": "empty", "*line_end": "more", "!*line_end": "nomore",
+             "line_end!=line_start": "nonempty", "line_start!=line_end": "nonempty", "*line_end=='\\x00'": "nomore",
+             "*line_end!='\\x00'": "more", "*line_end==0": "nomore", "*line_end!=0": "more",
+             "line_end-line_start==0": "empty", "line_end-line_start!=0": "nonempty", "line_end-line_start>0": "nonempty"}
     bad_atoms = []
 
     def ev(n, env):
-        n = strip(n)
+        n = strip(expand_locals(WM, n))
         r = render(n).replace(" ", "")
+        if r in ATOMS and ATOMS[r] == "nonempty":
+            return not env["empty"]
         if r in ATOMS:
             a = ATOMS[r]
             return {"empty": env["empty"], "more": not env["last"], "nomore": env["last"]}[a]
@@ -420,13 +425,17 @@ def run(rep, ctx):
             elif k == "CallExpr" and s.get("callee", "").endswith("fputc"):
                 out.append(chr(cv(call_args(s)[0])))
             elif k == "CallExpr" and s.get("callee", "").endswith("fwrite"):
-                a = [render(x).replace(" ", "") for x in call_args(s)]
-                if a[0] != "line_start" or a[1] != "1" or a[2] != "line_end-line_start":
+                a = [xrender(WM, x).replace(" ", "") for x in call_args(s)]
+                if (a[0], a[1], a[2]) not in (("line_start", "1", "line_end-line_start"), ("line_start", "line_end-line_start", "1")):
                     raise AnalysisBroken("C05.S1: fwrite arguments %s" % a)
                 if not env["empty"]:
                     out.append("L")
             elif k == "BinaryOperator" and s.get("op") == "=" and render(s).replace(" ", "") == "line_start=line_end+1":
                 return "next"
+            elif k == "DeclStmt" and all(v["k"] != "VarDecl" or v.get("declId") in _stable_local_inits(WM) for v in kids(s)):
+                continue                 # a named subexpression / condition: looked through where it is used
+            elif k == "NullStmt":
+                continue
             else:
                 raise AnalysisBroken("C05.S1: statement `%s` outside the fragment" % render(s)[:60])
         return None
@@ -460,54 +469,132 @@ def run(rep, ctx):
 
     # ---- P1 ---------------------------------------------------------------------------
     p1 = rep.rule("C05.P1", "RANGE", "non-finite dense values are rejected: decstring accepts only tokens ending in a digit or '.'", floor=3)
-    rets = [n for n in DEC.walk() if n["k"] == "ReturnStmt"]
-    if len(rets) != 1:
-        raise AnalysisBroken("C05.P1: decstring has %d returns" % len(rets))
+    by_id = {f.id: f for f in funcs}
+
+    class _Ret(Exception):
+        def __init__(self, v):
+            self.v = v
 
     def dv(n, env):
         n = strip(n)
         k = n["k"]
         r = render(n).replace(" ", "")
-        if r == "be<=buf":
+        if r == "be<=buf" or r == "buf>=be":
             return int(env["none"])
-        if r == "be[-1]":
+        if r == "be>buf" or r == "buf<be":
+            return int(not env["none"])
+        if r == "be==buf" or r == "buf==be":
+            return int(env["none"])
+        if r == "be[-1]" or r == "*(be-1)":
             return env["c"]
         if r in ("*__errno_location()", "errno"):
             # strtod sets errno = ERANGE for overflow AND for every subnormal (finite) result
             return env["errno"]
         if k == "DeclRefExpr" and n.get("name") == "ERANGE" or (n.get("m") == "ERANGE" and "cv" in n):
             return 34
-        if k == "DeclRefExpr" and n.get("name") == "c":
-            return env["cvar"]
+        if k == "DeclRefExpr" and n.get("declId") in env["locals"]:
+            v = env["locals"][n["declId"]]
+            if v is None:
+                raise AnalysisBroken("C05.P1: %s read before it is set" % n.get("name"))
+            return v
         if k in ("IntegerLiteral", "CharacterLiteral"):
             return int(n["v"])
+        if k == "CXXBoolLiteralExpr":
+            return int(str(n.get("v")).lower() in ("true", "1"))
         if "cv" in n and k != "DeclRefExpr":
             return int(n["cv"])
+        if k == "ConditionalOperator":
+            c_, a, b = kids(n)
+            return dv(a, env) if dv(c_, env) else dv(b, env)
         if k == "BinaryOperator":
             a, b = kids(n)
             op = n["op"]
             if op == "=":
                 v = dv(b, env)
-                if render(a) != "c":
+                t = strip(a)
+                if t["k"] != "DeclRefExpr" or t.get("declId") not in env["locals"]:
                     raise AnalysisBroken("C05.P1: assignment to %s" % render(a))
-                env["cvar"] = v
+                env["locals"][t["declId"]] = v
                 return v
             if op == "||":
                 return int(bool(dv(a, env)) or bool(dv(b, env)))
             if op == "&&":
                 return int(bool(dv(a, env)) and bool(dv(b, env)))
+            if op == ",":
+                dv(a, env)
+                return dv(b, env)
             x, y = dv(a, env), dv(b, env)
+            if op in ("-", "+"):
+                return x - y if op == "-" else x + y
             return {"<": int(x < y), ">": int(x > y), "<=": int(x <= y), ">=": int(x >= y), "==": int(x == y), "!=": int(x != y)}[op]
         if k == "UnaryOperator" and n.get("op") == "!":
             return int(not dv(kids(n)[0], env))
+        if k == "CallExpr":
+            nm = (n.get("callee") or "").replace("std::", "")
+            a = [dv(x, env) for x in call_args(n)]
+            if nm == "isdigit" and len(a) == 1:
+                return int(48 <= a[0] <= 57)
+            g = by_id.get(n.get("calleeId"))
+            if g is not None and len(g.params) == len(a) and env["depth"] < 3:
+                return call_fn(g, a, env)
         raise AnalysisBroken("C05.P1: expression `%s` outside the fragment" % r[:50])
+
+    def call_fn(g, args, env):
+        e2 = dict(env, depth=env["depth"] + 1, locals={p["declId"]: v for p, v in zip(g.params, args)})
+        body = [x for x in g.roots if x is not None and x["k"] == "CompoundStmt"]
+        try:
+            run_stmts(kids(body[-1]), e2)
+        except _Ret as r_:
+            return r_.v
+        raise AnalysisBroken("C05.P1: %s has a path without a return" % g.name)
+
+    def run_stmts(stmts, env):
+        for st_ in stmts:
+            if st_ is None:
+                continue
+            k = st_["k"]
+            if k == "CompoundStmt":
+                run_stmts(kids(st_), env)
+            elif k == "DeclStmt":
+                for v in kids(st_):
+                    if v["k"] == "VarDecl":
+                        ini = kids(v)
+                        env["locals"][v["declId"]] = dv(ini[0], env) if ini and "strtod" not in render(ini[0]) and v.get("name") != "be" else None
+            elif k == "ReturnStmt":
+                raise _Ret(dv(kids(st_)[0], env))
+            elif k == "IfStmt":
+                ch = [x for x in st_["c"] if x is not None]
+                if dv(ch[0], env):
+                    run_stmts([ch[1]], env)
+                elif len(ch) > 2:
+                    run_stmts([ch[2]], env)
+            elif k == "NullStmt":
+                pass
+            elif "strtod" in render(st_):
+                pass                      # the conversion itself: value and end pointer are the case parameters
+            elif k == "BinaryOperator" and st_.get("op") == "=":
+                dv(st_, env)
+            else:
+                raise AnalysisBroken("C05.P1: statement `%s` outside the fragment" % render(st_)[:60])
+
+    def decstring_rejects(none, cc, en):
+        env = dict(none=none, c=cc, errno=en, depth=0, locals={})
+        for v in DEC.walk():
+            if v["k"] == "VarDecl":
+                env["locals"].setdefault(v["declId"], None)
+        body = [x for x in DEC.roots if x is not None and x["k"] == "CompoundStmt"]
+        try:
+            run_stmts(kids(body[-1]), env)
+        except _Ret as r_:
+            return r_.v
+        raise AnalysisBroken("C05.P1: decstring has a path without a return")
     wrong = []
-    uses_errno = any("__errno_location" in render(x) for x in walk(kids(rets[0])[0]))
+    uses_errno = any("__errno_location" in render(x) or render(x) == "errno" for x in DEC.walk() if x["k"] in ("CallExpr", "UnaryOperator", "DeclRefExpr"))
     for none in (0, 1):
         for c in range(256):
             for en in ((0, 34) if uses_errno else (0,)):
                 cc = c - 256 if c >= 128 else c       # plain char is signed on the target
-                rej = dv(kids(rets[0])[0], dict(none=none, c=cc, cvar=None, errno=en))
+                rej = decstring_rejects(none, cc, en)
                 want = bool(none) or not (chr(c).isdigit() and c < 128 or c == ord("."))
                 if bool(rej) != want:
                     wrong.append((none, c, rej, en))
